@@ -313,6 +313,8 @@ def run(ctx):
     # the AST builder strips exactly the leading '#'
     builder = core.hir_fn("blots_core::expressions::pairs_to_expr_inner")["body"]
     from rules.c10 import closure_of, rule_match
+    import rules.c10 as _c10
+    _c10.CRATE[0] = core
     mprim = rule_match(closure_of(builder, "map_primary"))
     for a in mprim["arms"]:
         if any(H.last(v) == "input_reference" for v in H.pat_variants(a["pat"])):
